@@ -118,6 +118,24 @@ Denote(cp, mode) ==
         ELSE [ok |-> TRUE, bs |-> [b |-> b, stm |-> stm, cr |-> CrOf(f[3], b, mode), epsq |-> EpSqOf(f[4]),
                                     hmc |-> NumValue(f[5]), fmn |-> NumValue(f[6])]]
 
+(* ---- the canonical record as code points (so that the specification can read back what it writes) ---- *)
+CpOfPiece(p) == <<80, 78, 66, 82, 81, 75, 112, 110, 98, 114, 113, 107>>[p]
+RECURSIVE DigitsCp(_)
+DigitsCp(n) == IF n < 10 THEN <<48 + n>> ELSE DigitsCp(n \div 10) \o <<48 + (n % 10)>>
+RECURSIVE RowCp(_,_,_,_)
+RowCp(b, r, f, e) == IF f = 8 THEN (IF e > 0 THEN <<48 + e>> ELSE <<>>)
+                     ELSE IF b[SqOf(f, r)] = 0 THEN RowCp(b, r, f+1, e+1)
+                     ELSE (IF e > 0 THEN <<48 + e>> ELSE <<>>) \o <<CpOfPiece(b[SqOf(f, r)])>> \o RowCp(b, r, f+1, 0)
+RECURSIVE RowsCp(_,_)
+RowsCp(b, r) == RowCp(b, r, 0, 0) \o (IF r = 0 THEN <<>> ELSE <<47>> \o RowsCp(b, r-1))
+CrCp(cr, sh) == LET one(i) == IF cr[i] = -1 THEN <<>> ELSE
+                               IF sh THEN <<(IF i <= 2 THEN 65 ELSE 97) + cr[i]>> ELSE << <<75, 81, 107, 113>>[i] >>
+                    s == one(1) \o one(2) \o one(3) \o one(4)
+                IN IF s = <<>> THEN <<45>> ELSE s
+CanonCp(p, sh) == RowsCp(p.b, 7) \o <<32, IF p.stm = 0 THEN 119 ELSE 98, 32>> \o CrCp(p.cr, sh) \o <<32>>
+                  \o (IF p.ep = -1 THEN <<45>> ELSE <<97 + p.ep, IF p.stm = 0 THEN 54 ELSE 51>>)
+                  \o <<32>> \o DigitsCp(p.hmc) \o <<32>> \o DigitsCp(p.fmn)
+
 (* ---- clause E: which single field of a record is definitely bad ---- *)
 FieldError(i) == <<"InvalidBoard", "InvalidSideToMove", "InvalidCastlingRights", "InvalidEnPassant", "InvalidHalfMoveClock", "InvalidFullmoveNumber">>[i]
 \* field i of text is definitely malformed (syntax alone)
